@@ -515,6 +515,7 @@ class StmtMixin:
         self.cur = saved
         self.protos.append(sig + ';')
         text = sig + '\n' + ('\n'.join(contract) + '\n' if contract else '') + '{\n' + '\n'.join(lines) + '\n}\n'
+        text += contract_macros(cname, contract)
         self.bodies.append((cname, text))
         self.stats['functions'] += 1
         if spec:
@@ -712,3 +713,24 @@ class StmtMixin:
 
     def e_LambdaExpr(self, n):
         raise LoweringError(f'lambda used as a value in {self.cur["name"]} (only direct calls / modelled algorithms)')
+
+
+def contract_macros(cname, contract):
+    """the requires / ensures clauses of a contract, verbatim, as two macros over the parameter names -- lets a plain
+    (non-dfcc) harness assume/assert exactly the text that goto-instrument enforces, without a hand copy"""
+    if not contract:
+        return ''
+    import re as _re
+    txt = _re.sub(r'/\*.*?\*/', ' ', '\n'.join(contract), flags=_re.S)
+    out = {'requires': [], 'ensures': []}
+    for kind in out:
+        for m in _re.finditer(r'__CPROVER_' + kind + r'\s*\(', txt):
+            depth, i = 1, m.end()
+            while depth and i < len(txt):
+                depth += {'(': 1, ')': -1}.get(txt[i], 0)
+                i += 1
+            out[kind].append(' '.join(txt[m.end():i - 1].split()))
+    def conj(cs):
+        return ' && '.join('(' + c + ')' for c in cs) or '1'
+    return (f'#define CONTRACT_REQUIRES_{cname} ({conj(out["requires"])})\n'
+            f'#define CONTRACT_ENSURES_{cname} ({conj(out["ensures"])})\n')
